@@ -42,7 +42,7 @@ def jobs(tier, seed):
         c1 = CS.rand_contract(rng, i1, o1, alphabet, na=(0, 1, 2), ng=(1, 2))
         c2 = CS.rand_contract(rng, i2, o2, alphabet, na=(0, 1, 2), ng=(1, 2))
         share = []
-        mode = rng.choice(["plain", "dup-g", "dup-a", "scaled-g", "plain"])
+        mode = rng.choice(["plain", "dup-g", "dup-a", "scaled-g", "plain", "near-dup-g"])
         # duplicate / scale a term of c1 into c2 where the interface allows it
         if mode == "dup-g":
             cand = [t for t in c1["g"] if set(t) <= set(i2 + o2)]
@@ -56,6 +56,14 @@ def jobs(tier, seed):
                 c2["a"].append(dict(cand[0]))
                 if rng.random() < 0.5:
                     share.append(["a", c1["a"].index(cand[0]), len(c2["a"]) - 1])
+        elif mode == "near-dup-g":
+            # the same guarantee up to the sixth digit of one coefficient: two different constraints
+            cand = [t for t in c1["g"] if set(t) <= set(i2 + o2)]
+            if cand:
+                t = dict(cand[0])
+                k0 = sorted(t)[0]
+                t[k0] = t[k0] * (1 + 8e-6)
+                c2["g"].append(t)
         elif mode == "scaled-g":
             cand = [t for t in c1["g"] if set(t) <= set(i2 + o2)]
             if cand:
